@@ -36,7 +36,7 @@ CORE = [("gw", 2, 0, 0), ("gw", 1, 1, 0), ("gw", 0, 0, 0), ("gw", 2, 2, 3), ("ci
 
 def cooler_spec(kind, ti, mat):
     """-> (table, n, cells)"""
-    if kind == "s6":
+    if kind in ("s6", "s6f"):
         t = TABLES6[ti]
     elif kind == "s8":
         t = TABLES8[ti]
@@ -54,8 +54,13 @@ def get_cooler(kind, ti, mat):
     import cooler
     t, n, cells = cooler_spec(kind, ti, mat)
     bins = alpha.table_bins(t, "chr")
-    pix = {c: {"count": alpha.value(n, c[0], c[1])} for c in cells}
-    uri = fx.make(("c10", kind, ti, mat), bins, pix, cols=("count",), h5opts={"compression": None, "shuffle": False})
+    if kind == "s6f":
+        # float64 counts, all strictly between 0 and 1 (dyadic): a 'count' need not be an integer
+        pix = {c: {"count": alpha.value(n, c[0], c[1]) / 64.0} for c in cells}
+        uri = fx.make(("c10", kind, ti, mat), bins, pix, cols=("count",), count_dtype=np.float64, h5opts={"compression": None, "shuffle": False})
+    else:
+        pix = {c: {"count": alpha.value(n, c[0], c[1])} for c in cells}
+        uri = fx.make(("c10", kind, ti, mat), bins, pix, cols=("count",), h5opts={"compression": None, "shuffle": False})
     A = np.zeros((n, n))
     for (i, j), v in pix.items():
         A[i, j] = v["count"]
@@ -81,6 +86,12 @@ def units(tier):
         for ti in range(2):
             for lo in range(0, 1024, 8):   # pattern 0 (empty) is skipped inside
                 yield {"leg": "product4", "t": ti, "lo": lo, "hi": lo + 8}
+    for ti in range(3):
+        for mat in ("full", "checker", "mid_empty"):
+            for mode in MODES:
+                yield {"leg": "product", "kind": "s6f", "t": ti, "mat": mat, "mode": mode}
+    for mode in MODES:
+        yield {"leg": "sameuri", "mode": mode}
     sw = [("s6", ti, mat) for ti in range(3) for mat in (("full", "checker", "mid_empty", "sparse3", "off1", "corners") if th else ("full", "mid_empty"))]
     for kind, ti, mat in sw:
         for dim in ("min_count", "blacklist", "tol", "max_iters", "x0", "rescale", "chunksize"):
@@ -247,8 +258,39 @@ def _sweep(R, unit, only):
             run_one(R, inner, clr, A, chrom_of, o, **extra)
 
 
+def _sameuri(R, mode, only):
+    """balance, re-create the file at the SAME URI with another bin table / matrix, balance again - the flatness and mask clauses
+    must hold for the data that is there now"""
+    import cooler
+    from vmc import build
+    R.add("states")
+    R.add("traces")
+    p = scratch.fresh()
+    try:
+        for step, (ti, mat) in enumerate([(0, "full"), (1, "full"), (2, "full"), (1, "checker"), (2, "mid_empty"), (1, "full"), (2, "sparse3"), (0, "off1")]):
+            inner = {"step": step, "t": ti, "mat": mat, "mode": mode}
+            if only is not None and only.get("step", 99) < step:
+                break
+            R.order = (R.order[0], step)
+            t, n, cells = cooler_spec("s6", ti, mat)
+            bins = alpha.table_bins(t, "chr")
+            pix = {c: alpha.value(n, c[0], c[1]) for c in cells}
+            build.create(p, bins, pix, True)
+            A = np.zeros((n, n))
+            for (i, j), v in pix.items():
+                A[i, j] = A[j, i] = v
+            chrom_of = [ci for ci, c in enumerate(t) for _ in c]
+            for igd, mn in ((1, 0), (2, 1)):
+                run_one(R, {**inner, "ignore_diags": igd, "min_nnz": mn}, cooler.Cooler(p), A, chrom_of, base_opts(mode, igd, mn, 0), chunksize=4)
+    finally:
+        scratch.rm(p)
+
+
 def run(unit, R, tier, only=None):
     leg = unit["leg"]
+    if leg == "sameuri":
+        _sameuri(R, unit["mode"], only)
+        return
     if leg == "product":
         _product(R, unit, only)
         if unit["mat"] == "checker" and unit["t"] == 1:
@@ -267,6 +309,8 @@ def _replay_opts(m):
     u, inner = m["case"]["unit"], m["case"]["inner"]
     if u["leg"] == "product":
         return u["kind"], u["t"], u["mat"], base_opts(u["mode"], inner["ignore_diags"], inner["min_nnz"], inner["mad_max"])
+    if u["leg"] == "sameuri":
+        return "s6", inner["t"], inner["mat"], base_opts(inner["mode"], inner["ignore_diags"], inner["min_nnz"], 0)
     if u["leg"] == "product4":
         return "p4", u["t"], inner["mat"], base_opts(inner["mode"], inner["ignore_diags"], inner["min_nnz"], inner["mad_max"])
     mode, igd, mn, mad = CORE[inner["core"]]
@@ -286,7 +330,7 @@ def classify(m):
         t, n, cells = cooler_spec(kind, ti, mat)
         A = np.zeros((n, n))
         for (i, j) in cells:
-            A[i, j] = A[j, i] = alpha.value(n, i, j)
+            A[i, j] = A[j, i] = alpha.value(n, i, j) / (64.0 if kind == "s6f" else 1.0)
         chrom_of = [ci for ci, c in enumerate(t) for _ in c]
         d = m["detail"]
         w = np.array([float(x) if x != "nan" else np.nan for x in d[d.index(" w=[") + 4:d.rindex("]")].replace(" ", "").split(",")])
